@@ -309,3 +309,20 @@ def rule_alias(E, R, rule="R01-alias"):
         R.ok(rule, "<ast::field_expr::ComparisonOp as lex::Lex>::lex", "no spelling shadowed across delegated lexers (%d spellings)" % len(flat))
     R.floor(rule, "operator spellings", n, 33)
     return tables
+
+
+def sole_result(E, h, pred):
+    """Does the function return, on every path and under no condition, one expression satisfying pred(node, Sem, frame)?
+    Early returns and alternative branches (a "fast path" answering some inputs differently) make it False.
+    Private same-file helpers are followed. Returns (ok, detail)."""
+    import sem
+    S = sem.Sem(E, h)
+    leaves = S.result_leaves()
+    if not leaves:
+        return False, "no result expression found"
+    bad = []
+    for x in leaves:
+        n, fr = sem.tail_value(S, x.node, x.frame)
+        if x.pc_has_conditions() or x.in_loop or not pred(sem.peel(n), S, fr):
+            bad.append(x.node.get("sp", "?"))
+    return (not bad and len(leaves) == 1), ("results: %d; not the delegate or conditional: %s" % (len(leaves), bad))
